@@ -9,6 +9,8 @@ mod gen;
 mod lexfam;
 mod pool;
 mod proj;
+mod relfam;
+mod xform;
 mod run;
 mod semfam;
 mod session;
@@ -65,6 +67,7 @@ fn main() {
         "gen-bc" => bcfam::gen_bc(&args),
         "gen-big" => bigfam::gen_big(&args),
         "gen-ops" => semfam::gen_ops(&args),
+        "gen-rel" => relfam::gen_rel(&args),
         "show" => semfam::show(&args),
         other => {
             eprintln!("unknown command {other}");
